@@ -185,6 +185,7 @@ def problem_spec(
     kappa_max_exp: float = 4.0,
     face_bias: bool = True,
     units: bool = False,
+    shift: bool = False,
 ):
     n = draw(st.integers(n_min, n_max))
     obj = draw(objective_spec(n, families, kappa_max_exp))
@@ -195,6 +196,8 @@ def problem_spec(
     out = {"obj": obj, "lb": box["lb"], "ub": box["ub"], "x0": start["x0"]}
     if units and draw(st.integers(0, 3)) == 0:
         out["units"] = {"xs": 10.0 ** draw(st.integers(-6, 6)), "fs": 10.0 ** draw(st.integers(-8, 8))}
+    if shift and draw(st.integers(0, 4)) == 0:
+        out["shift"] = draw(st.sampled_from([100.0, -1000.0, 1e4, -1e5, 1e6]))
     return out
 
 
@@ -211,6 +214,14 @@ class Problem:
         self.lb = np.array([-np.inf if v is None else unjson_float(v) for v in spec["lb"]], dtype=float)
         self.ub = np.array([np.inf if v is None else unjson_float(v) for v in spec["ub"]], dtype=float)
         self.x0 = np.array([unjson_float(v) for v in spec["x0"]], dtype=float)
+        if spec.get("shift"):
+            # the same problem with its origin far away: x' = x + T (a start on a bound stays exactly on it: both are
+            # the same float plus the same T)
+            from vf.families import Translated
+
+            T = float(spec["shift"])
+            self.obj = Translated(self.obj, T)
+            self.lb, self.ub, self.x0 = self.lb + T, self.ub + T, self.x0 + T
         if spec.get("units"):
             # the same problem in other units: x' = xs*x, f' = fs*f (box and start scaled consistently;
             # a start on a bound stays exactly on it because both are multiplied by the same number)
